@@ -257,12 +257,20 @@ def implUnmarshalLoop (S : Schema) (i : Nat) (o : UOpts) (childDec : Nat → Val
                 | .err e => .err e | .panic => .panic
             | .err e => .err e | .panic => .panic
 
-/-- The closure for message type `i` decoding into `into` (tree recursion by fuel on input length:
-    every nested payload is strictly shorter than its parent). A nil receiver returns immediately. -/
-def implUnmarshalClosure (S : Schema) (o : UOpts) : Nat → Nat → Val → Bytes → Res Val
-  | 0, _, into, _ => .ok into
-  | fuel+1, i, into, bs =>
+/-- `runtime.nestedRecursionLimit`: budget left for nested messages; an exhausted budget is negative
+    (proto.UnmarshalOptions reads 0 as "default"). -/
+def nestedLimit (depth : Int) : Int :=
+  let d := if depth = 0 then 10000 else depth
+  if d ≤ 1 then -1 else d - 1
+
+/-- The closure for message type `i` decoding into `into` with recursion budget `depth`
+    (`UnmarshalInput.Depth`). Tree recursion by fuel on input length: every nested payload is strictly
+    shorter than its parent. A nil receiver returns immediately; an exhausted budget is an error. -/
+def implUnmarshalClosure (S : Schema) (o : UOpts) : Nat → Int → Nat → Val → Bytes → Res Val
+  | 0, _, _, into, _ => .ok into
+  | fuel+1, depth, i, into, bs =>
     if into.isNone then .ok into
-    else implUnmarshalLoop S i o (implUnmarshalClosure S o fuel) bs.length into bs
+    else if depth < 0 then .err .depth
+    else implUnmarshalLoop S i o (implUnmarshalClosure S o fuel (nestedLimit depth)) bs.length into bs
 
 end Pulsar
